@@ -1,7 +1,7 @@
 import Clikit.Drv.C01
 import Clikit.Model.Resolver
 import Clikit.Model.AliasCfg
-/-! Driver entries of the resolver model: `c03.resolve`, `c03.lead`, `c03.walk`, `c03.same`. -/
+/-! Driver entries of the resolver model: `c03.resolve`, `c03.history`, `c03.lead`, `c03.walk`, `c03.same`. -/
 namespace Clikit.Drv.C03
 open Lean Clikit.Drv Clikit.Parser Clikit.Resolver
 
@@ -48,6 +48,19 @@ def handle (m : String) (j : Json) : Option (R Json) :=
       | .ok (path, a) =>
         return jOk (Json.mkObj [("path", jStrs path), ("args_set", C01.jPairs a.args),
                                  ("opts_set", C01.jPairs a.opts)])
+  | "c03.history" => some do
+      -- the calls `lines` made one after the other on ONE resolver object (`resolveHistory`): the selection of each
+      let app ← (← fArr j "commands").toList.mapM cmdOf
+      let lines ← (← fArr j "lines").toList.mapM fun l => do
+        match l with
+        | .arr a => a.toList.mapM asChars
+        | _ => .error "c03.history: a line is a list of tokens"
+      let cv ← C01.convOf j
+      return jList (fun r => match r with
+        | .error e => jErr e
+        | .ok (path, a) => jOk (Json.mkObj [("path", jStrs path), ("args_set", C01.jPairs a.args),
+                                             ("opts_set", C01.jPairs a.opts)]))
+        (resolveHistory cv app none lines)
   | "c03.lead" => some do
       let toks ← (← fArr j "tokens").toList.mapM asChars
       return jStrs (lead toks)
